@@ -135,8 +135,9 @@ fn fmt_price(m: u128, sc: u32) -> String {
 }
 
 pub fn gen_price(r: &mut Rng, rg: &Regime, prec: u32, size_hint: u128) -> String {
-    // keep price mantissa * size inside the exact-decimal domain (2^94)
-    let cap = (1u128 << 94) / size_hint.max(1);
+    // keep price mantissa * size (and rate mantissa * total, rates having <= 6 digits) inside the
+    // exact-decimal domain (2^95)
+    let cap = (1u128 << 74) / size_hint.max(1);
     let mmax = (rg.price_mant_max as u128).min(cap).max(1);
     let m = 1 + r.below128(mmax);
     let sc = if prec == 0 || r.chance(45) { 0 } else { r.below(prec.min(9) as u64 + 1) as u32 };
